@@ -102,7 +102,7 @@ def render(spec, indent, sep, trailing_val, col, custom):
             t = tuple("@") + chars(b[1]) + tuple("{") + chars(b[2]) + tuple(",\n")
             for fi, (k, v) in enumerate(b[3]):
                 pad = col - len(chars(k)) - 3
-                t += chars(indent) + chars(k) + tuple(" " * max(pad, 0)) + tuple(" = ") + chars(v)
+                t += chars(indent) + chars(k) + tuple(" " * max(pad, 0)) + tuple(" = ") + (tuple(str(v)) if isinstance(v, int) else chars(v))
                 if trailing_val or fi < len(b[3]) - 1:
                     t += tuple(",")
                 t += tuple("\n")
@@ -164,8 +164,11 @@ def mk_spec(eng, shape):
     for i, sh in enumerate(shape):
         s1 = lambda nm, n=1, a="xy": eng.sym_str(f"{nm}{i}_", n, a)
         if sh[0] == "E":
-            spec.append(("E", s1("t"), mk(tuple("k%d" % i) + chars(s1("k"))),
-                         [(eng.sym_str(f"f{i}_{j}_", kl, "ab"), s1(f"v{j}_", 2, "x{")) for j, kl in enumerate(sh[1])]))
+            flds = [(eng.sym_str(f"f{i}_{j}_", kl, "ab"), s1(f"v{j}_", 2, "x{")) for j, kl in enumerate(sh[1])]
+            if len(sh) > 2:
+                # a field whose value is a Python int (what MonthIntMiddleware / AddEnclosing(enclose_integers=False) leave)
+                flds.append(("year", sh[2]))
+            spec.append(("E", s1("t"), mk(tuple("k%d" % i) + chars(s1("k"))), flds))
         elif sh[0] == "S":
             spec.append(("S", mk(tuple("s%d" % i) + chars(s1("k"))), s1("v", 2, "x\"")))
         elif sh[0] in "PXI":
@@ -243,6 +246,10 @@ def main():
     shapes.append([("F", 3)])
     for a, b in itertools.product(ent[1:4] + other, repeat=2):
         shapes.append([a, b])
+    # int-valued fields are written as their decimal text
+    shapes.append([("E", (1,), 2020)])
+    shapes.append([("E", (2, 1), 0), ("S",)])
+    shapes.append([("E", (), -7)])
     # fields whose keys have the same length (symbolic keys: they may be EQUAL - repeated field keys are written one by one)
     shapes.append([("E", (1, 1))])
     shapes.append([("E", (2, 1, 2))])
